@@ -243,6 +243,8 @@ structure State where
   raw : List (Nat × Nat × Nat) := []
   /-- serial number the next raw connection of a peer gets: (peer, number) -/
   rawNext : List (Nat × Nat) := []
+  /-- service handlers of the survivor that are inside and blocked (op `svcblock`) -/
+  stuck : Nat := 0
   deriving Repr
 
 def init : State := {}
@@ -358,6 +360,8 @@ def setTni (d : State) (k : Nat) (t : Tni) : State :=
 * `tsend <k> <sendto|parent|children|parallel|multicast|broadcast> <dests|->` — the entry point on
   instance k (`sendto -`: nil destination); answer `<ok|err:k> delivered=<d>`, configuration
   messages counted
+* `svcblock <q> <n>` / `svcping <q> <n>` / `svcrelease` — service messages from healthy peer q whose
+  handlers block until released / return at once
 * `stall <p>` — a connection to the survivor's address that stays silent (no TLS hello, no identity)
 * `inbound <q> <n>` — healthy peer q sends n messages to the survivor (first contact: it connects);
   answer `ok dispatched=<n> conns=<connections with q>`
@@ -500,6 +504,20 @@ def step (d : State) (toks : List String) : State × String :=
         (d', s!"dispatched={o.dispatched.length} told={told} table={rawTable d' p}")
       | none => (d, "bad-op")
     | _, _, _ => (d, "bad-op")
+  | ["svcblock", q, n] | ["svcping", q, n] =>
+    -- healthy peer q sends n service messages to the survivor (first contact: it connects); each is
+    -- handed to its handler at once, however many handlers are stuck (`c09_dispatch_never_waits`);
+    -- the handlers of `svcblock` stay inside until `svcrelease`
+    match q.toNat?, n.toNat? with
+    | some q, some n =>
+      if q = 0 ∨ n = 0 ∨ n > 400 ∨ !s.up.contains q ∨ d.raw.any (·.1 == q) ∨ (d.speers.lookup q).isSome then (d, "bad-op") else
+      let s1 := if s.conns.any (fun c => c.peer == q && c.alive) then s else (C09.step s (.accept q)).1
+      let k := (s1.conns.filter (·.peer == q)).length
+      if toks.head? = some "svcblock" then
+        ({ d with core := s1, stuck := d.stuck + n }, s!"ok blocked={d.stuck + n} conns={k}")
+      else ({ d with core := s1 }, s!"ok handled={n} conns={k}")
+    | _, _ => (d, "bad-op")
+  | ["svcrelease"] => ({ d with stuck := 0 }, s!"released={d.stuck}")
   | ["stall", p] =>
     -- somebody connects to the survivor's address and says nothing (a peer that dies right after its
     -- TCP connect: no TLS hello, no identity).  Nothing of it ever reaches the table; every such
